@@ -213,6 +213,12 @@ func (e *Engine) verifyFunc(name string, forceSafety bool) (res *FuncResult) {
 		// snapshot again: evaluating the preconditions may have materialised entry locations lazily
 		vc.entry = st.clone()
 	}
+	if vc.contract != nil {
+		vc.usesOnlyObligations(fn, vc.contract)
+		if vc.contract.NoBody {
+			return
+		}
+	}
 	f.run("true")
 	if vc.contract != nil && len(f.rets) > 0 {
 		var conds []string
